@@ -126,3 +126,40 @@ package codec
 //@   trusted
 //@   pure
 //@   ensures err == nil ==> seq(bs) == enc_of(v, ghost(enc_epoch)) && bs != nil && len(bs) < 0x1000000000000
+
+// ---------------------------------------------------------------------------
+// C22: index keys of transaction / receipt lists: key(i) = RLP(minimal big-endian of i, with a
+// leading zero byte when the top bit is set). key80 is the key left-aligned in 80 bits (10 bytes,
+// zero padded); keys are prefix-free, so unsigned order of key80 is the lexicographic byte order.
+// ---------------------------------------------------------------------------
+
+//@ property C22
+//@ smt bv (define-fun u64len ((v W64)) IDX (ite (bvult v #x0000000000000080) #x0000000000000001 (ite (bvult v #x0000000000008000) #x0000000000000002 (ite (bvult v #x0000000000800000) #x0000000000000003 (ite (bvult v #x0000000080000000) #x0000000000000004 (ite (bvult v #x0000008000000000) #x0000000000000005 (ite (bvult v #x0000800000000000) #x0000000000000006 (ite (bvult v #x0080000000000000) #x0000000000000007 (ite (bvult v #x8000000000000000) #x0000000000000008 #x0000000000000009)))))))))
+//@ smt bv (define-fun keylen ((v W64)) IDX (ite (bvult v #x0000000000000080) #x0000000000000001 (bvadd #x0000000000000001 (u64len v))))
+//@ smt bv (define-fun key80 ((v W64)) (_ BitVec 80) (ite (bvult v #x0000000000000080) (concat ((_ extract 7 0) v) #x000000000000000000) (bvor (concat (bvadd #x80 ((_ extract 7 0) (u64len v))) #x000000000000000000) (bvshl ((_ zero_extend 16) v) (bvmul #x00000000000000000008 (bvsub #x00000000000000000009 ((_ zero_extend 16) (u64len v))))))))
+//@ smt bv (define-fun padb ((a (Array IDX BYTE)) (o IDX) (l IDX) (i IDX)) BYTE (ite (bvslt i l) (select a (bvadd o i)) #x00))
+//@ smt bv (define-fun pad80 ((a (Array IDX BYTE)) (o IDX) (l IDX)) (_ BitVec 80) (concat (padb a o l #x0000000000000000) (padb a o l #x0000000000000001) (padb a o l #x0000000000000002) (padb a o l #x0000000000000003) (padb a o l #x0000000000000004) (padb a o l #x0000000000000005) (padb a o l #x0000000000000006) (padb a o l #x0000000000000007) (padb a o l #x0000000000000008) (padb a o l #x0000000000000009)))
+//@ smt bv (define-fun bvult80 ((x (_ BitVec 80)) (y (_ BitVec 80))) Bool (bvult x y))
+//@ spec idxKey(bs, v) = len(bs) == keylen(v) && pad80(arr(bs), off(bs), len(bs)) == key80(v)
+
+// index keys are strictly increasing in the index, for all 64-bit indices (so also across the
+// length boundaries 128, 32768, 2^23, ...), and the index is determined by the key
+//@ lemma idxkey_mono bv : forall a uint64, b uint64 :: a < b ==> bvult80(key80(a), key80(b))
+//@ lemma idxkey_inj bv : forall a uint64, b uint64 :: key80(a) == key80(b) ==> a == b
+
+// what the byte layer writes for an unsigned integer is exactly that key (body in zz_lemmas_verif.go)
+//@ func verifLemmaUintKey(w, v) (err)
+//@   arith bv
+//@   modifies ghost(w_arr), ghost(w_len)
+//@   requires w != nil && w.writer != nil && outSane()
+//@   requires len(nullSequence) == 2 && nullSequence[0] == 0xf8 && nullSequence[1] == 0
+//@   ensures [key] err == nil ==> ghost(w_len) - old(ghost(w_len)) == keylen(v) && pad80(ghost(w_arr), old(ghost(w_len)), ghost(w_len) - old(ghost(w_len))) == key80(v)
+//@   ensures [prefix] outKeeps(old(ghost(w_len)))
+
+// The reflective encoder maps a uint to rlpWriter.WriteValue -> writeBytes(Uint64ToBytes(v)); the
+// dispatch through reflection is trusted, the byte layer is verifLemmaUintKey above.
+//@ func (c Codec) MarshalToBytes(v) (bs, err)
+//@   iface
+//@   trusted
+//@   pure
+//@   ensures typeof(v) == typeid(uint) ==> err == nil && fresh(bs) && idxKey(bs, uint64(as(uint, v)))
